@@ -265,6 +265,7 @@ async def run_prog(w: World, prog, actor: str, depth: int, in_handler: bool, sid
             await asyncio.sleep(op[1])
             w.last_progress = w.loop.time()  # a scripted sleep ending is progress (silence detector)
         elif o == 'burn':
+            w.rec('burn', actor, op[1])
             w.loop.burn(op[1])
         elif o == 'dispatch_noloop':
             # dispatch() as a worker thread would see it: the handler's context, but no running event loop
@@ -556,6 +557,7 @@ def make_handler(w: World, hi: int, spec: dict):
             for opi, op in enumerate(prog):
                 o = op[0]
                 if o == 'burn':
+                    w.rec('burn', act, op[1])
                     w.loop.burn(op[1])
                 elif o == 'dispatch':
                     _, bn, typ, opts, var = op
